@@ -303,6 +303,12 @@ def runOpts (b : Block) : Res :=
       else if showBuilder "impl3" (buildFor (opts.take k ++ [xo]) []) = " ".intercalate impl3L then none
       else some s!"shared_defaults_model=[{noSpace (showBuilder "impl3" (buildFor (opts.take k ++ [xo]) []))}]_impl=[{noSpace (" ".intercalate impl3L)}]"
     | none => none
+  -- after a call with options, a use without any shows the defaults alone
+  let impl4L := (b.lines.find? (fun l => l.head? = some "impl4")).getD []
+  let c4 : Option String :=
+    if impl4L.isEmpty ∨ hasNil then none
+    else if showBuilder "impl4" (buildFor (opts.take k) []) = " ".intercalate impl4L then none
+    else some s!"defaults_after_call_model=[{noSpace (showBuilder "impl4" (buildFor (opts.take k) []))}]_impl=[{noSpace (" ".intercalate impl4L)}]"
   -- a nil option among the call options makes the call itself fail, whatever the target needs
   let callres := ((field b "callres").getD []).headD "skip"
   let nilInCall := (opts.drop k).any (fun o => o == Opt.nilOpt)
@@ -312,6 +318,7 @@ def runOpts (b : Block) : Res :=
     if nilInCall ∧ callres ≠ "nilarg" ∧ callres ≠ "skip" then some s!"nil_option_given_to_Call_of_a_function_without_parameters_ended_{callres}" else
     if !hasNil ∧ callres = "nilarg" then some "call_reports_a_nil_option_that_was_not_given" else
     if c3.isSome ∧ !hasNil then some "defaults_of_one_function_changed_by_calling_another" else
+    if c4.isSome then some "defaults_changed_by_the_options_of_an_earlier_call" else
     if hasNil then (if implL = ["impl", "nilarg"] then none else some s!"nil_option_not_reported_{noSpace implS}")
     else if implL.getD 1 "" ≠ "ok" then some s!"valid_options_rejected_{noSpace implS}"
     else
@@ -323,7 +330,7 @@ def runOpts (b : Block) : Res :=
         let keys := opts.flatMap optKeys
         if keys.Nodup ∧ sortK (parseDump impl2L) ≠ sortK got then some "permutation_of_distinct_keys_changed_the_maps"
         else none
-  { conform := c1.or (c2.or c3), prop := p,
+  { conform := c1.or (c2.or (c3.or c4)), prop := p,
     stats := [s!"size={opts.length}", s!"class={if hasNil then "nil" else if (opts.flatMap optKeys).Nodup then "distinct" else "dups"}"] }
 
 /-! ### result (C17) -/
